@@ -8,18 +8,20 @@ CONSTANTS MaxWriters, MaxSteps, Precisions, Paths,
           DEV_GlobalPrecision,      \* float_to_str reads the precision of the writer constructed LAST
           DEV_AccumulatingRoot,     \* XMLFileWriter appends to one element tree across writes
           DEV_NoTruncate,           \* the file is opened without truncation: a longer old file keeps its tail
-          DEV_NetworkCached         \* a writer assembles the road network once and reuses it for its later writes
+          DEV_NetworkCached,        \* a writer assembles the road network once and reuses it for its later writes
+          DEV_FailedWriteKeepsDoc   \* a write that raises (target directory missing) leaves its document in the XML writer
 
 VARIABLES writers, files, gprec, tree, steps, act,
           nlan,      \* number of lanelets of the (shared) scenario: edited between writes by EditScenario
-          wnet       \* per writer: the network size it saw at its first write (0 = has not written yet)
-vars == <<writers, files, gprec, tree, steps, act, nlan, wnet>>
-View == <<writers, files, gprec, tree, steps, nlan, wnet>>
+          wnet,      \* per writer: the network size it saw at its first write (0 = has not written yet)
+          pend       \* per writer: documents left over from writes that raised
+vars == <<writers, files, gprec, tree, steps, act, nlan, wnet, pend>>
+View == <<writers, files, gprec, tree, steps, nlan, wnet, pend>>
 W == 1..MaxWriters
 
 A(op, w, path, mode, kind, fmt, d) == [op |-> op, w |-> w, path |-> path, mode |-> mode, kind |-> kind, fmt |-> fmt, d |-> d]
 Init == /\ writers = <<>> /\ files = [p \in {} |-> NoFile] /\ gprec = 4 /\ tree = <<>> /\ steps = 0
-        /\ nlan = 1 /\ wnet = <<>>
+        /\ nlan = 1 /\ wnet = <<>> /\ pend = <<>>
         /\ act = A("init", 0, "", "", "", "", 0)
 
 (* abstract length of a file: more decimals, planning problems and copies make it longer *)
@@ -29,7 +31,7 @@ Garbled == [fmt |-> "garbled", digits |-> 0, copies |-> 0, pp |-> 0, nl |-> 0]
 New(fmt, d) ==
     /\ Len(writers) < MaxWriters
     /\ writers' = Append(writers, [fmt |-> fmt, d |-> d]) /\ tree' = Append(tree, [n |-> 0, pp |-> 0])
-    /\ gprec' = d /\ UNCHANGED <<files, nlan>> /\ wnet' = Append(wnet, 0)
+    /\ gprec' = d /\ UNCHANGED <<files, nlan>> /\ wnet' = Append(wnet, 0) /\ pend' = Append(pend, 0)
     /\ act' = A("new", Len(writers) + 1, "", "", "", fmt, d)
 
 Write(w, path, mode, kind) ==
@@ -39,25 +41,34 @@ Write(w, path, mode, kind) ==
               ELSE [n |-> 1, pp |-> IF kind = "full" THEN 1 ELSE 0]
         content == [fmt |-> wr.fmt,
                     digits |-> IF wr.fmt = "xml" THEN (IF DEV_GlobalPrecision THEN gprec ELSE wr.d) ELSE 0,
-                    copies |-> t1.n, pp |-> t1.pp,
+                    copies |-> t1.n + (IF wr.fmt = "xml" THEN pend[w] ELSE 0), pp |-> t1.pp,
                     nl |-> IF DEV_NetworkCached /\ wnet[w] # 0 THEN wnet[w] ELSE nlan]
         onDisk == IF DEV_NoTruncate /\ path \in DOMAIN files /\ Size(files[path]) > Size(content)
                   THEN Garbled ELSE content          \* new bytes followed by the old file's tail
     IN /\ w \in 1..Len(writers)
-       /\ IF Skipped(files, path, mode) THEN UNCHANGED <<files, tree, wnet>>
+       /\ IF Skipped(files, path, mode) THEN UNCHANGED <<files, tree, wnet, pend>>
           ELSE /\ files' = [p \in DOMAIN files \cup {path} |-> IF p = path THEN onDisk ELSE files[p]]
                /\ tree' = [tree EXCEPT ![w] = t1]
                /\ wnet' = [wnet EXCEPT ![w] = IF @ = 0 THEN nlan ELSE @]
+               /\ pend' = [pend EXCEPT ![w] = 0]
        /\ UNCHANGED <<writers, gprec, nlan>>
        /\ act' = A("write", w, path, mode, kind, wr.fmt, wr.d)
 
 (* the user edits the scenario the writers reference (a lanelet is added) *)
-EditScenario == /\ nlan < 2 /\ nlan' = nlan + 1 /\ UNCHANGED <<writers, files, gprec, tree, wnet>>
+EditScenario == /\ nlan < 2 /\ nlan' = nlan + 1 /\ UNCHANGED <<writers, files, gprec, tree, wnet, pend>>
                 /\ act' = A("edit", 0, "", "", "", "", 0)
+
+(* a write into a directory that does not exist raises; nothing is written and nothing may stay behind in the writer *)
+FailedWrite(w, kind) ==
+    /\ w \in 1..Len(writers)
+    /\ pend' = [pend EXCEPT ![w] = IF DEV_FailedWriteKeepsDoc THEN @ + 1 ELSE 0]
+    /\ UNCHANGED <<writers, files, gprec, tree, nlan, wnet>>
+    /\ act' = A("fail", w, "", "", kind, writers[w].fmt, writers[w].d)
 
 Next == /\ steps < MaxSteps /\ steps' = steps + 1
         /\ \/ \E fmt \in Formats, d \in Precisions : New(fmt, d)
            \/ EditScenario
+           \/ \E w \in W, k \in Kinds : FailedWrite(w, k)
            \/ \E w \in W, p \in Paths, m \in Modes, k \in Kinds : Write(w, p, m, k)
 Spec == Init /\ [][Next]_vars
 
@@ -67,6 +78,6 @@ PropOwnInputs == [][act'.op = "write" =>
                       ELSE files'[act'.path] = F(writers[act'.w], act'.kind, nlan)]_vars
 InvFiles == \A p \in DOMAIN files : files[p].copies = 1 /\ files[p].fmt \in Formats
 
-StKey == [writers |-> writers, files |-> files, gprec |-> gprec, tree |-> tree, steps |-> steps, nlan |-> nlan, wnet |-> wnet]
+StKey == [writers |-> writers, files |-> files, gprec |-> gprec, tree |-> tree, steps |-> steps, nlan |-> nlan, wnet |-> wnet, pend |-> pend]
 Emit == PrintT(<<"EDGE", ToJson([from |-> StKey, act |-> act', to |-> StKey'])>>)
 ===================================================================================
